@@ -395,6 +395,7 @@ def descent_rules(ck, F, S, intrusive, owning, prefix='C08'):
             raise AnalysisBroken(f'no instantiation of {tmpl} with both find and insert')
         picks.append(cands[0])
     comparator_result_rule(ck, F, picks)
+    reinsert_rule(ck, F, picks[0], prefix)
     # each flavour twice: as the library instantiates it (comparators returning int), and as the probe unit instantiates it with
     # a comparator whose result is a comparison category (`<=>`) -- a branch of the utility that depends on the result type
     # would otherwise never be seen
@@ -417,6 +418,55 @@ def descent_rules(ck, F, S, intrusive, owning, prefix='C08'):
             ck.check(R1, inst, not problems[0], f'{tcls}: ' + '; '.join(problems[0]), loc=find0['loc'], fn=insert0['id'],
                      detail={'descents': ndesc})
             ck.check(R2, inst, not problems[1], f'{tcls}: ' + '; '.join(problems[1]), loc=insert0['loc'], fn=insert0['id'])
+
+
+def reinsert_rule(ck, F, tcls, prefix):
+    """Handing the intrusive tree a node that is already one of its members (the comparison of the node with itself is zero)
+    changes nothing: the descent ends at the node, nothing is relinked, recoloured or re-balanced."""
+    R = ck.rule(f'{prefix}.member-reinserted', 'inserting into the intrusive tree a node that is already a member of it (found equal to itself) '
+                'leaves every link and colour of every node as it was: no member is reset, detached or re-linked before the search has '
+                'established that it is new', floor=2)
+    S = Sym(F, opaque=lambda fid: F.fn.get(fid) is None)
+    S.concrete_loops = True
+    core = [b['name'] for b in F.rec[tcls]['bases'] if b['name'].startswith('ipr::util::rb_tree::core<')][0]
+    inserts = [f for f in F.fns_in(tcls) if f['name'] == 'insert' and 'ipr_probe::' not in f['id']]
+    if not inserts:
+        raise AnalysisBroken(f'{tcls}: insert is not instantiated')
+    fn = inserts[0]
+    for zname in ('a', 'b'):
+        fr, nodes = small_tree(F, S, core, 3)
+        fr.st.heap[fr.tree[1]].cls = tcls
+        z = nodes[zname]
+        before = {(nm, w): fr.get(fr.st, n_, w) for nm, n_ in nodes.items() for w in ('left', 'right', 'parent')}
+        colours = {nm: fr.color(fr.st, n_) for nm, n_ in nodes.items()}
+        Sx = TreeSym(F, opaque=lambda fid: F.fn.get(fid) is None or contracts.fn_simple(fid) in ('fixup_insert', 'operator()'), max_depth=30, max_paths=400)
+        Sx.concrete_loops = True
+        try:
+            outs = Sx.run(fn['id'], this=fr.tree, args=[('addr', z), ('sym', 'comp')], state=fr.st)
+        except Unsupported as e:
+            raise AnalysisBroken(f'{fn["id"]}: {e}')
+        problems, reached = [], 0
+        for st, k, v in outs:
+            if k != 'return':
+                continue
+            d = decisions_of(fr, st)
+            # the path on which the walk reaches the node itself and finds it equal (the only one a total order allows)
+            want = [('a', 'zero')] if zname == 'a' else [('a', 'neg'), ('b', 'zero')]
+            if [x for x in d] != want:
+                continue
+            reached += 1
+            for (nm, w), val in before.items():
+                now = fr.get(st, nodes[nm], w)
+                if now != val:
+                    problems.append(f'the {w} link of node {nm} becomes {fr.nm(now)} (was {fr.nm(val)})')
+            for nm, c0 in colours.items():
+                if fr.color(st, nodes[nm]) != c0:
+                    problems.append(f'node {nm} is recoloured')
+            if [e for e in st.effects if e[0] in ('call', 'fcall') and contracts.fn_simple(e[1]) == 'fixup_insert']:
+                problems.append('re-balancing is started although nothing was linked')
+        ck.check(R, f'{contracts.short(tcls)}/member {zname}', reached > 0 and not problems,
+                 f'{fn["id"]}, given the member node {zname} of a three-node tree again: ' + ('; '.join(sorted(set(problems))[:3]) if reached else
+                 'no path reaches the node and finds it equal to itself') + ': the sub-trees hanging from it are cut off', loc=fn['loc'], fn=fn['id'])
 
 
 def comparator_result_rule(ck, F, picks):
